@@ -261,7 +261,26 @@ func runC19(p *Prog, r *Report, tier string) {
 				if _, w := want[fn]; !w {
 					return
 				}
-				if c, ok := st.Val.(*ssa.Call); ok {
+				val := st.Val
+				if _, isCall := val.(*ssa.Call); !isCall {
+					// read once before the loop and captured by the per-record closure
+					if o := p.origin(val); o != nil {
+						val = o
+					}
+					if u, ok := val.(*ssa.UnOp); ok {
+						if al, ok := u.X.(*ssa.Alloc); ok {
+							if sv := singleStoreValue(al); sv != nil {
+								val = sv
+							}
+						}
+					}
+					if al, ok := val.(*ssa.Alloc); ok {
+						if sv := singleStoreValue(al); sv != nil {
+							val = sv
+						}
+					}
+				}
+				if c, ok := val.(*ssa.Call); ok {
 					n := calleeName(&c.Call)
 					got[fn] = n[strings.LastIndex(n, ".")+1:]
 				}
